@@ -266,7 +266,7 @@ def coq_term(case, model):
     if op in ("u.iter32", "i.iter32"):
         if op[0] == "i" or h % 1200 != 0:
             return None
-        return ("it_run %s (it_new (strip %s))" % (coq_script(a[1]), coq_list(a[0])),
+        return ("it_run iter %s (it_new iter (strip %s))" % (coq_script(a[1]), coq_list(a[0])),
                 coq_obs(model.split(" ")[1:]))
     rb = lambda t: coq_bytes(t[0])
     if not op.startswith("h.") and h % 12 != 0:
@@ -276,21 +276,21 @@ def coq_term(case, model):
     if op == "u.new":
         return "unew %s" % coq_list(a[0]), coq_list(model.split(" ")[1])
     if op == "u.from_bytes_le":
-        return "ufrom_bytes_le %s" % coq_bytes(a[0]), coq_result(model)
+        return "ufrom_bytes_le byteio %s" % coq_bytes(a[0]), coq_result(model)
     if op == "u.from_bytes_be":
-        return "ufrom_bytes_be %s" % coq_bytes(a[0]), coq_result(model)
+        return "ufrom_bytes_be byteio %s" % coq_bytes(a[0]), coq_result(model)
     if op == "u.to_bytes_le":
-        return "uto_bytes_le (strip %s)" % coq_list(a[0]), coq_result(model, render=rb)
+        return "uto_bytes_le byteio (strip %s)" % coq_list(a[0]), coq_result(model, render=rb)
     if op == "u.to_u32_digits":
-        return "uto_u32_digits (strip %s)" % coq_list(a[0]), coq_result(model)
+        return "uto_u32_digits iter (strip %s)" % coq_list(a[0]), coq_result(model)
     if op == "i.to_signed_bytes_le":
-        return "to_signed_bytes_le %s" % coq_bigint(a[0]), coq_result(model, render=rb)
+        return "to_signed_bytes_le byteio %s" % coq_bigint(a[0]), coq_result(model, render=rb)
     if op == "i.to_signed_bytes_be":
-        return "to_signed_bytes_be %s" % coq_bigint(a[0]), coq_result(model, render=rb)
+        return "to_signed_bytes_be byteio %s" % coq_bigint(a[0]), coq_result(model, render=rb)
     if op == "i.from_signed_bytes_le":
-        return "from_signed_bytes_le %s" % coq_bytes(a[0]), coq_result(model)
+        return "from_signed_bytes_le byteio %s" % coq_bytes(a[0]), coq_result(model)
     if op == "i.from_signed_bytes_be":
-        return "from_signed_bytes_be %s" % coq_bytes(a[0]), coq_result(model)
+        return "from_signed_bytes_be byteio %s" % coq_bytes(a[0]), coq_result(model)
     if op == "i.new":
         return "inew %s %s" % (coq_sign(a[0]), coq_list(a[1])), coq_bigint(model.split(" ")[1])
     hk = {"h.bd_from": "from_bitwise_digits_le", "h.bd_from_inexact": "from_inexact_bitwise_digits_le"}
